@@ -1,4 +1,6 @@
 """C16 — staging forms: eval-when-compile / eval-and-compile / do-mac; every sub-form is compiled (and so evaluated at compile time) once."""
+CANON = True
+
 import ast
 
 from .. import compq, pyq
